@@ -94,16 +94,19 @@ def run(run: common.Run):
         down = og.px * og.py <= pg.px * pg.py
         method = 'average' if down else case['upsampling']
         modelled = method in ('average', 'nearest', 'bilinear')
+        tie_geo = False
         if not down:
-            # destination pixel centres exactly on source pixel edges: GDAL's nearest/bilinear tie-breaking is not modelled
+            # destination pixel centres exactly on source pixel edges: GDAL's tie-breaking is not modelled (whatever the kernel:
+            # the validity of an up-sampled pixel follows the pixel that holds its centre)
             for (so, sp, sn), (do, dp, dn) in ((og.col_axis, pg.col_axis), (og.row_axis, pg.row_axis)):
                 if any((2 * (do - so) + dp * (2 * j + 1)) % (2 * sp) == 0 for j in range(dn)):
                     modelled = False
+                    tie_geo = True
         off = len(lines)
         if modelled:
             for b in range(nb):
                 lines.append(resamp.model_resample_line(method, og, pg, oarr[b], ov))
-        case['_tie'] = (not down) and not modelled and method in ('nearest', 'bilinear')
+        case['_tie'] = tie_geo
         prepared.append((case, src, ref, s, r, sv, rv, proc, proc_ref, modelled, off))
     rep1 = common.model_batch(lines)
     if rep1 is None:
